@@ -7,7 +7,7 @@ from common import hx
 from props.c02 import boundary_values
 
 ID = "C06"
-LEAN_IMPORTS = ["PyTrie.Props.C06"]
+LEAN_IMPORTS = ["PyTrie.Props.C06", "PyTrie.Props.C05Batch", "PyTrie.Props.RawLevel"]
 THEOREMS = [
     "PyTrie.Props.C06.setE_tree",
     "PyTrie.Props.C06.deleteE_tree",
@@ -19,6 +19,12 @@ THEOREMS = [
     "PyTrie.Props.C06.regenerate_is_true_count",
     "PyTrie.Props.C06.keccak_embedded",
     "PyTrie.Props.C06.reach_invariant",
+    "PyTrie.Props.C05.batch_begin_invariant",
+    "PyTrie.Props.C05.batch_op_invariant",
+    "PyTrie.Props.C05.batch_commit_exact",
+    "PyTrie.Props.Raw.set_refines",
+    "PyTrie.Props.Raw.delete_refines",
+    "PyTrie.Props.Raw.keccak_is_std",
 ]
 RULE = ("pruning tries started on an empty database and modified only through their own API: histories of "
         "set/delete/set-to-empty/no-op updates and squash_changes blocks (committed and aborted) over prefix-sharing "
